@@ -1322,3 +1322,117 @@ Proof.
   - destruct (istep_ok s o I) as (s1 & ob & E & I1 & SH). rewrite E.
     destruct (IH s1 I1) as (L & F). cbn [length]. split; [rewrite L; reflexivity|]. constructor; assumption.
 Qed.
+
+(* ---- cancellation through the stop token hits exactly the generator's pending sleep ---- *)
+Definition gen_pending (s : ist) : Prop :=
+  match i_gen s with
+  | GSleeping => exists t, pending (i_sched s) = [t] /\ e_id t = tag
+  | _ => pending (i_sched s) = []
+  end.
+
+Definition iinv2 (s : ist) : Prop := iinv s /\ gen_pending s.
+
+Lemma perm_single {A} (t : A) l : Permutation [t] l -> l = [t].
+Proof. intros P. apply Permutation_length_1_inv. exact P. Qed.
+
+Lemma istep_ok2 s o : iinv2 s -> exists s1 ob, istep false s o = IOk s1 ob /\ iinv2 s1.
+Proof.
+  intros [[IO IH] GP].
+  assert (iinv s) as I by (split; assumption).
+  destruct (istep_cases false s o) as [->|[->|[->|[->|E]]]].
+  - cbn [istep]. unfold gen_pending in GP.
+    destruct (i_gen s) eqn:G; eexists _, _; (split; [reflexivity|]); split; try exact I;
+      try (split; cbn [i_owner i_sched]; auto; fail); unfold gen_pending; cbn [i_gen i_sched]; try rewrite G; exact GP.
+  - cbn [istep]. unfold gen_pending in GP.
+    destruct (i_gen s) eqn:G;
+      try (eexists _, _; (split; [reflexivity|]); split; [exact I|unfold gen_pending; rewrite G; exact GP]; fail).
+    all: destruct (i_stop s); eexists _, _; (split; [reflexivity|]); (split; [split; cbn [i_owner i_sched schedule fst]; auto; apply heap_push_ok; exact IH|]);
+      unfold gen_pending; cbn [i_gen i_sched schedule fst]; try exact GP.
+    all: set (e := mkE 0 (Some 0%nat) tag); destruct (heap_push_ok (i_sched s) e IH) as (_ & P1 & _);
+      exists e; split; [|reflexivity]; apply perm_single; symmetry;
+      rewrite (pending_perm _ _ P1), (pending_cons_live e) by reflexivity; rewrite GP; reflexivity.
+  - cbn [istep]. destruct (i_stop s); [eexists _, _; split; [reflexivity|]; split; [exact I|exact GP]|].
+    destruct (remove_ok (i_sched s) tag IH) as (l' & r & E & H' & _ & _ & SP).
+    assert (stop_callback false (mkI (i_sched s) (i_gen s) true (i_owner s)) =
+            match r with Some _ => IOk (mkI l' GDone true false) [] | None => IOk (mkI l' (i_gen s) true false) [] end) as ES.
+    { unfold stop_callback, acquire. cbn [i_owner i_sched i_gen i_stop]. rewrite IO. cbn [i_owner i_sched i_gen i_stop].
+      rewrite E. destruct r; reflexivity. }
+    unfold gen_pending in GP.
+    destruct (i_gen s) eqn:G; try (eexists _, _; (split; [reflexivity|]); split; [split; cbn [i_owner i_sched]; auto|unfold gen_pending; cbn [i_gen i_sched]; exact GP]; fail).
+    + (* sleeping: the pending sleep carries the tag and is the one removed *)
+      rewrite ES. destruct GP as (t0 & EP & ET). destruct r as [t|]; cbn [remove_spec] in SP.
+      * destruct SP as (_ & _ & P). rewrite EP in P. apply perm_single in P.
+        eexists _, _. split; [reflexivity|]. split; [split; cbn [i_owner i_sched]; auto|].
+        unfold gen_pending. cbn [i_gen i_sched]. inversion P. reflexivity.
+      * exfalso. destruct SP as (_ & NO). apply (NO t0); [rewrite EP; left; reflexivity|exact ET].
+    + rewrite ES. destruct r as [t|]; cbn [remove_spec] in SP.
+      * exfalso. destruct SP as (_ & _ & P). rewrite GP in P. apply Permutation_nil in P. discriminate.
+      * destruct SP as (P & _). rewrite GP in P. apply Permutation_nil in P.
+        eexists _, _. split; [reflexivity|]. split; [split; cbn [i_owner i_sched]; auto|].
+        unfold gen_pending. cbn [i_gen i_sched]. exact P.
+  - cbn [istep]. unfold acquire. rewrite IO. cbn [i_sched].
+    destruct (get_expired_ok (i_sched s) 1 IH) as (l' & r & E & H' & _ & SP). rewrite E.
+    unfold gen_pending in GP.
+    destruct r as [t|tp|]; cbn [expired_spec] in SP; eexists _, _; (split; [reflexivity|]);
+      (split; [split; cbn [i_owner i_sched]; auto|]); unfold gen_pending; cbn [i_gen i_sched].
+    + destruct SP as (_ & _ & P & _). destruct (i_gen s).
+      3:{ destruct GP as (t0 & EP & _). rewrite EP in P. apply perm_single in P. inversion P. reflexivity. }
+      all: rewrite GP in P; apply Permutation_nil in P; discriminate.
+    + destruct SP as (_ & P & _). destruct (i_gen s).
+      3:{ destruct GP as (t0 & EP & ET). exists t0. split; [|exact ET]. rewrite EP in P. apply perm_single in P. exact P. }
+      all: rewrite GP in P; apply Permutation_nil in P; exact P.
+    + destruct SP as (-> & EP). destruct (i_gen s); try reflexivity.
+      destruct GP as (t0 & EP' & _). rewrite EP in EP'. discriminate.
+  - rewrite E. eexists _, _. split; [reflexivity|]. split; [exact I|exact GP].
+Qed.
+
+(* the state the interval scenario is in after a list of operations *)
+Fixpoint istate (s : ist) (ops : list (list Z)) : ist :=
+  match ops with
+  | [] => s
+  | o :: t => match istep false s o with IOk s1 _ => istate s1 t | _ => s end
+  end.
+
+Lemma istate_inv ops : forall s, iinv2 s -> iinv2 (istate s ops).
+Proof.
+  induction ops as [|o t IH]; intros s I; cbn [istate]; [exact I|].
+  destruct (istep_ok2 s o I) as (s1 & ob & E & I1). rewrite E. apply IH. exact I1.
+Qed.
+
+(* (cancellation through a stop token) after ANY sequence of generator calls / get_expired / earlier stops:
+   request_stop() returns; if the generator is asleep, exactly its pending sleep (the one carrying &tag) is cancelled,
+   nothing stays pending and the generator finishes (its tick future becomes ready without a value: observation 2);
+   otherwise nothing pending exists and nothing changes *)
+Theorem interval_stop_cancels ops : let s := istate ist0 ops in
+  i_stop s = false ->
+  exists s1 ob, istep false s [3] = IOk s1 ob /\ i_stop s1 = true /\ i_owner s1 = false /\
+    (i_gen s = GSleeping ->
+       (exists t, pending (i_sched s) = [t] /\ e_id t = tag) /\ pending (i_sched s1) = [] /\ i_gen s1 = GDone /\
+       ob = [0; 2; Z.of_nat (length (i_sched s1))]) /\
+    (i_gen s <> GSleeping ->
+       pending (i_sched s) = [] /\ pending (i_sched s1) = [] /\ i_gen s1 = i_gen s /\
+       ob = [0; 0; Z.of_nat (length (i_sched s1))]).
+Proof.
+  cbn zeta. assert (iinv2 ist0) as I0 by (split; [split; [reflexivity|apply heap_ok_nil]|reflexivity]).
+  pose proof (istate_inv ops ist0 I0) as [[IO IH] GP]. set (s := istate ist0 ops) in *. intros ST.
+  cbn [istep]. rewrite ST.
+  destruct (remove_ok (i_sched s) tag IH) as (l' & r & E & H' & _ & _ & SP).
+  assert (stop_callback false (mkI (i_sched s) (i_gen s) true (i_owner s)) =
+          match r with Some _ => IOk (mkI l' GDone true false) [] | None => IOk (mkI l' (i_gen s) true false) [] end) as ES.
+  { unfold stop_callback, acquire. cbn [i_owner i_sched i_gen i_stop]. rewrite IO. cbn [i_owner i_sched i_gen i_stop].
+    rewrite E. destruct r; reflexivity. }
+  unfold gen_pending in GP.
+  destruct (i_gen s) eqn:G.
+  1,2,5: eexists _, _; (split; [reflexivity|]); cbn [i_stop i_owner i_sched i_gen]; (split; [reflexivity|]); (split; [exact IO|]);
+    (split; [discriminate|]); intros _; auto.
+  - rewrite ES. destruct GP as (t0 & EP & ET). destruct r as [t|]; cbn [remove_spec] in SP.
+    + destruct SP as (_ & _ & P). rewrite EP in P. apply perm_single in P.
+      eexists _, _. split; [reflexivity|]. cbn [i_stop i_owner i_sched i_gen]. split; [reflexivity|]. split; [reflexivity|].
+      split; [|intros Q; congruence]. intros _. split; [eauto|]. split; [inversion P; reflexivity|]. auto.
+    + exfalso. destruct SP as (_ & NO). apply (NO t0); [rewrite EP; left; reflexivity|exact ET].
+  - rewrite ES. destruct r as [t|]; cbn [remove_spec] in SP.
+    + exfalso. destruct SP as (_ & _ & P). rewrite GP in P. apply Permutation_nil in P. discriminate.
+    + destruct SP as (P & _). rewrite GP in P. apply Permutation_nil in P.
+      eexists _, _. split; [reflexivity|]. cbn [i_stop i_owner i_sched i_gen]. split; [reflexivity|]. split; [reflexivity|].
+      split; [discriminate|]. intros _. auto.
+Qed.
